@@ -288,6 +288,19 @@ def in_memory_key_rules(chk, F, A, tag, prefix):
                     dst = flow.origin(cf, t["args"][0])
                     if src[0] == "arg" and src[1] == 2 and dst[0] == "field":
                         writes.append((b, dst[2]))
+                    elif src[0] == "arg" and src[1] == 2 and dst[0] == "call":
+                        # the key's own `as_mut_slice()`-style accessor on the captured key: a local method of the key type
+                        # returning `&mut [u8]` whose receiver is the captured value
+                        tps = F.call_targets(cf, dst[2])
+                        sk = A.type_path("SigningKey")
+                        if len(tps) == 1 and tps[0] in F.fns:
+                            acc = F.fns[tps[0]]
+                            ins = acc.j.get("inputs", [])
+                            recv_ok = len(ins) == 1 and ins[0].get("k") == "ref" and ins[0].get("mut") and ins[0]["ty"].get("path") == sk
+                            out_ok = acc.j.get("output", {}).get("s", "").replace("'_ ", "") in ("&mut [u8]",) or core.is_mut_u8_slice(acc.j.get("output", {})) if hasattr(core, "is_mut_u8_slice") else acc.j.get("output", {}).get("s", "").endswith("mut [u8]")
+                            rorg = flow.origin(cf, dst[2]["args"][0]) if dst[2]["args"] else ("?",)
+                            if recv_ok and out_ok and rorg[0] == "field":
+                                writes.append((b, "via " + acc.path))
             chk.ob(prefix + ".closure-writes-key-from-argument", core.strip_generics(cp) + tag, len(writes) >= 1,
                    "the in-memory key's update closure does not copy its argument into the key bytes", where=cf.loc())
             if writes:
